@@ -38,7 +38,9 @@ class Exprs:
         self.names = func.local_names()
         self.argc = func.d["arg_count"]
         self.defs = {}
+        self.block_of_term = {}
         for bi, b in enumerate(func.blocks):
+            self.block_of_term[id(b["term"])] = bi
             if b["cleanup"]:
                 continue
             for si, s in enumerate(b["stmts"]):
@@ -57,6 +59,17 @@ class Exprs:
                     self.defs.setdefault(pl["l"], []).append(("call", bi, None, t))
                 elif pl["p"][0] != "deref":
                     self.defs.setdefault(pl["l"], []).append(("partial", bi, None, None))
+        # a local whose address is taken mutably can change behind the back of its single
+        # definition (buffers filled by read_exact, iterators advanced by next): keep it opaque
+        self.escaped = set()
+        for b in func.blocks:
+            if b["cleanup"]:
+                continue
+            for s in b["stmts"]:
+                if s["k"] == "assign" and s["rv"]["k"] in ("ref", "rawptr") and s["rv"]["mut"]:
+                    pl = s["rv"]["pl"]
+                    if "deref" not in pl["p"]:
+                        self.escaped.add(pl["l"])
         self.upvars = func.upvar_names() if func.kind == "closure" else {}
 
     # ------------------------------------------------------------
@@ -68,7 +81,7 @@ class Exprs:
             return ("param", nm if nm else "arg%d" % l)
         ds = self.defs.get(l, [])
         real = [d for d in ds if d[0] != "partial"]
-        if len(real) == 1 and len(ds) == 1 and depth < self.max_depth and l not in stack:
+        if len(real) == 1 and len(ds) == 1 and depth < self.max_depth and l not in stack and l not in self.escaped:
             kind, bi, si, x = real[0]
             if kind == "rv":
                 return self.rvalue(x, depth + 1, stack + (l,))
@@ -157,7 +170,7 @@ class Exprs:
                 return e
             if not self.keep_casts and rv["ck"] in ("IntToInt",):
                 return e
-            return ("cast", e, rv["ty"])
+            return ("cast", e, rv["ty"], rv.get("from", "?"))
         if k == "discr":
             return ("discr", self.place(rv["pl"], depth, stack))
         if k == "agg":
@@ -182,6 +195,10 @@ class Exprs:
         args = tuple(self.operand(a, depth, stack) for a in t["args"])
         if self.deref_calls and DEREF_LIKE.search(callee) and len(args) == 1:
             return args[0]
+        # a call that receives `&mut` state (a reader, a cursor, an iterator) yields a different value
+        # each time: tag it with its site so that two such calls are different atoms
+        if any(a["k"] in ("copy", "move") and a["pl"]["ty"].startswith("&mut ") for a in t["args"]):
+            return ("call", callee, args, "@bb%s" % self.block_of_term.get(id(t), "?"))
         return ("call", callee, args)
 
 
@@ -227,12 +244,18 @@ def fmt(e):
         return "discr(%s)" % fmt(e[1])
     if k == "cast":
         return "(%s as %s)" % (fmt(e[1]), short(e[2]))
+    if k == "upvar":
+        return str(e[1])
     if k == "fn":
         return "fn:" + short(e[1])
     if k == "item":
         return short(e[1])
     if k == "unit":
         return "()"
+    if k == "repeat":
+        return "[%s; %s]" % (fmt(e[1]), e[2])
+    if k == "subslice":
+        return "%s[%s..%s]" % (fmt(e[1]), e[2], e[3])
     if k == "closure":
         return "closure:" + short(e[1])
     return str(e)
@@ -272,3 +295,12 @@ KINDS = {"const", "str", "bytes", "fn", "item", "unit", "param", "var", "upvar",
 
 def contains(e, pred):
     return any(pred(x) for x in walk(e))
+
+
+def strip_tags(e):
+    """remove call-site tags (for comparing expressions across functions)"""
+    if not isinstance(e, tuple):
+        return e
+    if e and e[0] == "call" and len(e) == 4:
+        return ("call", e[1], tuple(strip_tags(a) for a in e[2]))
+    return tuple(strip_tags(x) if isinstance(x, tuple) else x for x in e)
